@@ -39,6 +39,9 @@ func runC12(c *an.Ctx) {
 	r12o(c)
 	r12p(c)
 	r12q(c)
+	// round 9
+	r12r(c)
+	r12s(c)
 }
 
 const ccPkg = "core/controlcommands"
@@ -304,18 +307,21 @@ func r12e(c *an.Ctx) {
 	if fn != nil {
 		c.Subject()
 		var lk, del ssa.Instruction
-		an.Instrs(fn, func(in ssa.Instruction) {
-			switch x := in.(type) {
-			case *ssa.Lookup:
-				if isFieldNamed(x.X, "pending") {
-					lk = x
+		// (the critical section may be an immediately invoked function literal with a deferred unlock)
+		for _, f := range an.WithAnon(fn) {
+			an.Instrs(f, func(in ssa.Instruction) {
+				switch x := in.(type) {
+				case *ssa.Lookup:
+					if isFieldNamed(x.X, "pending") {
+						lk = x
+					}
+				case *ssa.Call:
+					if an.CalleeName(&x.Call) == "builtin.delete" && isFieldNamed(x.Call.Args[0], "pending") {
+						del = x
+					}
 				}
-			case *ssa.Call:
-				if an.CalleeName(&x.Call) == "builtin.delete" && isFieldNamed(x.Call.Args[0], "pending") {
-					del = x
-				}
-			}
-		})
+			})
+		}
 		atomic := false
 		if lk != nil && del != nil {
 			for _, a := range an.HeldAt(lk) {
